@@ -30,18 +30,18 @@ Proof. apply existsb_app. Qed.
 
 (* ---------- the invariant (over the fields it needs) ---------- *)
 
-Definition InvF (closed once dead : bool) (next : nat) (evs : list event) : Prop :=
+Definition InvF (closed once cancel dead : bool) (next : nat) (evs : list event) : Prop :=
   n_disc evs = (if once then 1 else 0)
   /\ closed = once
   /\ n_first evs = n_disc evs
   /\ died evs = false /\ dead = false
-  /\ scan evs = (true, closed, None)
+  /\ scan evs = (true, closed || cancel, None)
   /\ handled evs = seq 0 next
   /\ recovered evs = panics evs
   /\ (has_ret evs = true -> once = true).
 
 Definition Inv (s : cst) (evs : list event) : Prop :=
-  InvF (c_closed s) (c_once s) (c_died s) (c_next s) evs.
+  InvF (c_closed s) (c_once s) (c_cancel s) (c_died s) (c_next s) evs.
 
 Lemma Inv_init : Inv cinit [].
 Proof. unfold Inv, InvF. simpl. repeat split; try reflexivity. discriminate. Qed.
@@ -49,7 +49,7 @@ Proof. unfold Inv, InvF. simpl. repeat split; try reflexivity. discriminate. Qed
 (* events that none of the projections looks at *)
 Definition neutral (e : event) : bool :=
   match e with
-  | EWRes _ _ | ELoopExit => true
+  | EWRes _ _ | ELoopExit | ECwSkip _ => true
   | _ => false
   end.
 
@@ -61,16 +61,16 @@ Ltac inv_app H :=
   unfold InvF;
   rewrite n_disc_app, n_first_app, died_app, scan_app, handled_app, recovered_app, panics_app, has_ret_app, H6.
 
-Lemma InvF_neutral1 closed once dead next evs e :
-  InvF closed once dead next evs -> neutral e = true -> InvF closed once dead next (evs ++ [e]).
+Lemma InvF_neutral1 closed once cancel dead next evs e :
+  InvF closed once cancel dead next evs -> neutral e = true -> InvF closed once cancel dead next (evs ++ [e]).
 Proof.
   intros H He. inv_app H.
-  destruct e as [|t r|t b|t r|i h|i| |]; try discriminate; simpl;
+  destruct e as [| |t r|t|t b|t r|i h|i| |]; try discriminate; simpl;
     rewrite ?Nat.add_0_r, ?app_nil_r, ?orb_false_r; repeat split; auto.
 Qed.
 
-Lemma InvF_neutral closed once dead next evs es :
-  InvF closed once dead next evs -> forallb neutral es = true -> InvF closed once dead next (evs ++ es).
+Lemma InvF_neutral closed once cancel dead next evs es :
+  InvF closed once cancel dead next evs -> forallb neutral es = true -> InvF closed once cancel dead next (evs ++ es).
 Proof.
   intros H. induction es as [|e es IH] using rev_ind; intros Hn; [now rewrite app_nil_r|].
   rewrite forallb_app in Hn. apply andb_true_iff in Hn. destruct Hn as [Hn He]. simpl in He.
@@ -78,8 +78,8 @@ Proof.
 Qed.
 
 (* a closeKnown that finds the once flag set *)
-Lemma InvF_already closed dead next evs t :
-  InvF closed true dead next evs -> InvF closed true dead next (evs ++ [ECloseRet t CAlready]).
+Lemma InvF_already closed cancel dead next evs t :
+  InvF closed true cancel dead next evs -> InvF closed true cancel dead next (evs ++ [ECloseRet t CAlready]).
 Proof.
   intros H. inv_app H. simpl. rewrite ?Nat.add_0_r, ?app_nil_r, ?orb_false_r. repeat split; auto.
 Qed.
@@ -88,7 +88,7 @@ Qed.
 Lemma close_preserves t s evs :
   Inv s evs -> Inv (fst (do_close impl_cfg t s)) (evs ++ snd (do_close impl_cfg t s)).
 Proof.
-  intros H. unfold do_close. simpl. destruct (c_once s) eqn:Ho; simpl.
+  intros H. unfold do_close. simpl. rewrite orb_false_r. destruct (c_once s) eqn:Ho; simpl.
   - unfold Inv in *. rewrite Ho in *. now apply InvF_already.
   - unfold Inv in *. simpl. rewrite Ho in H. inv_app H. subst. simpl.
     rewrite H4, H7, H8. simpl. rewrite ?app_nil_r.
@@ -98,10 +98,11 @@ Qed.
 (* a step that changes none of the fields the invariant reads and emits only neutral events *)
 Lemma quiet_preserves s evs s' es :
   Inv s evs ->
-  c_closed s' = c_closed s -> c_once s' = c_once s -> c_died s' = c_died s -> c_next s' = c_next s ->
+  c_closed s' = c_closed s -> c_once s' = c_once s -> c_cancel s' = c_cancel s ->
+  c_died s' = c_died s -> c_next s' = c_next s ->
   forallb neutral es = true -> Inv s' (evs ++ es).
 Proof.
-  intros H E1 E2 E3 E4 Hn. unfold Inv. rewrite E1, E2, E3, E4. now apply InvF_neutral.
+  intros H E1 E2 E5 E3 E4 Hn. unfold Inv. rewrite E1, E2, E3, E4, E5. now apply InvF_neutral.
 Qed.
 
 Lemma Inv_alive s evs : Inv s evs -> c_died s = false.
@@ -117,10 +118,10 @@ Ltac live H :=
 
 Lemma wcheck_preserves t s evs : Inv s evs -> Inv (fst (a_wcheck t s)) (evs ++ snd (a_wcheck t s)).
 Proof.
-  intros H. unfold a_wcheck. live H. destruct (c_closed s) eqn:Hc; simpl.
-  - unfold Inv in *. simpl. rewrite Hc in *. inv_app H.
+  intros H. unfold a_wcheck. live H. unfold seen_closed. destruct (c_closed s || c_cancel s) eqn:Hc; simpl.
+  - unfold Inv in *. simpl. inv_app H. rewrite Hc.
     simpl. rewrite Nat.eqb_refl, ?Nat.add_0_r, ?app_nil_r, ?orb_false_r. repeat split; auto.
-  - unfold Inv in *. simpl. rewrite Hc in *. inv_app H.
+  - unfold Inv in *. simpl. inv_app H. rewrite Hc.
     simpl. rewrite ?Nat.add_0_r, ?app_nil_r, ?orb_false_r. repeat split; auto.
 Qed.
 
@@ -128,8 +129,8 @@ Lemma wdo_preserves t s evs : Inv s evs -> Inv (fst (a_wdo t s)) (evs ++ snd (a_
 Proof.
   intros H. unfold a_wdo. live H.
   destruct (get_reg t s); try (simpl; rewrite app_nil_r; assumption).
-  destruct (c_closed s) eqn:Hc; [|destruct (c_broken s)]; simpl;
-    (eapply quiet_preserves; [exact H| | | | |]; reflexivity).
+  destruct (seen_closed s) eqn:Hc; [|destruct (c_broken s)]; simpl;
+    (eapply quiet_preserves; [exact H| | | | | |]; reflexivity).
 Qed.
 
 Lemma set_reg_Inv t r s evs : Inv s evs -> Inv (set_reg t r s) evs.
@@ -141,15 +142,13 @@ Proof.
   destruct (get_reg t s); try (simpl; rewrite app_nil_r; assumption).
   pose proof (close_preserves t (set_reg t CIdle s) evs (set_reg_Inv _ _ _ _ H)) as Hcl.
   destruct (do_close impl_cfg t (set_reg t CIdle s)) as [s1 e1]. simpl in *.
-  rewrite app_assoc. eapply quiet_preserves; [exact Hcl| | | | |]; reflexivity.
+  rewrite app_assoc. eapply quiet_preserves; [exact Hcl| | | | | |]; reflexivity.
 Qed.
 
 Lemma cwcheck_preserves t s evs : Inv s evs -> Inv (fst (a_cwcheck t s)) (evs ++ snd (a_cwcheck t s)).
 Proof.
-  intros H. unfold a_cwcheck. live H. destruct (c_closed s) eqn:Hc; simpl.
-  - unfold Inv in *. simpl. rewrite Hc in *.
-    assert (Ho : c_once s = true) by (destruct H as (_ & H2 & _); now rewrite <- H2).
-    rewrite Ho in *. now apply InvF_already.
+  intros H. unfold a_cwcheck. live H. destruct (seen_closed s) eqn:Hc; simpl.
+  - eapply quiet_preserves; [exact H| | | | | |]; reflexivity.
   - rewrite app_nil_r. exact H.
 Qed.
 
@@ -158,7 +157,7 @@ Lemma cwwrite_preserves t s evs :
 Proof.
   intros H. unfold a_cwwrite. live H.
   destruct (get_reg t s); try (simpl; rewrite app_nil_r; assumption).
-  destruct (c_closed s); [simpl; rewrite app_nil_r; assumption|].
+  destruct (seen_closed s); [simpl; rewrite app_nil_r; assumption|].
   destruct (c_broken s); [now apply close_preserves|simpl; rewrite app_nil_r; assumption].
 Qed.
 
@@ -177,14 +176,20 @@ Proof. intros H. unfold a_close. live H. now apply close_preserves. Qed.
 Lemma peer_close_preserves s evs : Inv s evs -> Inv (fst (a_peer_close s)) (evs ++ snd (a_peer_close s)).
 Proof. intros H. unfold a_peer_close. live H. simpl. rewrite app_nil_r. exact H. Qed.
 
+Lemma cancel_preserves s evs : Inv s evs -> Inv (fst (a_cancel s)) (evs ++ snd (a_cancel s)).
+Proof.
+  intros H. unfold a_cancel. live H. unfold Inv in *. simpl. inv_app H.
+  simpl. rewrite ?Nat.add_0_r, ?app_nil_r, ?orb_false_r, ?orb_true_r. repeat split; auto.
+Qed.
+
 Lemma loop_exit_preserves s evs :
   Inv s evs ->
-  let s0 := mkC (c_closed s) (c_once s) (c_broken s) true (c_died s) (c_next s) (c_regs s) in
+  let s0 := mkC (c_closed s) (c_once s) (c_cancel s) (c_broken s) true (c_died s) (c_next s) (c_regs s) in
   Inv (fst (do_close impl_cfg 0 s0)) (evs ++ ELoopExit :: snd (do_close impl_cfg 0 s0)).
 Proof.
   intros H s0.
   assert (H0 : Inv s0 (evs ++ [ELoopExit])).
-  { eapply quiet_preserves; [exact H| | | | |]; reflexivity. }
+  { eapply quiet_preserves; [exact H| | | | | |]; reflexivity. }
   pose proof (close_preserves 0 s0 _ H0) as Hcl. now rewrite <- app_assoc in Hcl.
 Qed.
 
@@ -205,10 +210,10 @@ Lemma iter_preserves h s evs :
 Proof.
   intros H. unfold a_iter. live H.
   destruct (c_loop_done s); [simpl; rewrite app_nil_r; exact H|].
-  destruct (c_closed s) eqn:Hc.
-  - pose proof (loop_exit_preserves s evs H) as Hl. cbv zeta in Hl. rewrite Hc in Hl.
+  destruct (seen_closed s) eqn:Hc.
+  - pose proof (loop_exit_preserves s evs H) as Hl. cbv zeta in Hl.
     destruct (do_close impl_cfg 0 _) as [s1 e1]. exact Hl.
-  - unfold Inv in *. rewrite Hc in H.
+  - unfold Inv in *.
     destruct h as [|v]; simpl; inv_app H; rewrite H7, H8, seq_snoc;
       simpl; rewrite ?Nat.add_0_r, ?app_nil_r, ?orb_false_r; repeat split; auto.
 Qed.
@@ -225,7 +230,8 @@ Inductive is_action : @action cst event -> Prop :=
 | IA_cwcheck t : is_action (a_cwcheck t)
 | IA_cwwrite t : is_action (a_cwwrite impl_cfg t)
 | IA_cwclose t : is_action (a_cwclose impl_cfg t)
-| IA_peer : is_action a_peer_close.
+| IA_peer : is_action a_peer_close
+| IA_cancel : is_action a_cancel.
 
 Lemma in_gors_from gs : forall t a, In a (concat (gors_from impl_cfg t gs)) -> is_action a.
 Proof.
@@ -254,6 +260,7 @@ Proof.
   - now apply cwwrite_preserves.
   - now apply cwclose_preserves.
   - now apply peer_close_preserves.
+  - now apply cancel_preserves.
 Qed.
 
 Theorem invariant script gs sched :
@@ -287,25 +294,25 @@ Proof.
   intros [[ok c] p] H. destruct ok; [reflexivity|]. now rewrite fold_false in H.
 Qed.
 
-(* while the scan is fine its "teardown seen" flag is: a Disconnected() event occurred *)
-Lemma scan_closed_flag evs : forall c p, scan evs = (true, c, p) -> c = has_disc evs.
+(* while the scan is fine its flag is: a Disconnected() or a parent-cancel event occurred *)
+Lemma scan_closed_flag evs : forall c p, scan evs = (true, c, p) -> c = has_closed evs.
 Proof.
   induction evs as [|e evs IH] using rev_ind; intros c p H.
   - unfold scan in H. simpl in H. now inversion H.
   - rewrite scan_app in H. simpl in H. destruct (scan evs) as [[ok0 c0] p0] eqn:Hs.
     assert (Hok : ok0 = true).
     { destruct ok0; [reflexivity|]. pose proof (scan_step_false c0 p0 e) as Hf. rewrite H in Hf. discriminate. }
-    subst ok0. specialize (IH c0 p0 eq_refl). unfold has_disc. rewrite existsb_app. fold (has_disc evs). rewrite <- IH.
+    subst ok0. specialize (IH c0 p0 eq_refl). unfold has_closed. rewrite existsb_app. fold (has_closed evs). rewrite <- IH.
     unfold scan_step in H. destruct p0 as [t0|].
-    + destruct e as [|t r|t b|t r|i h|i| |]; try discriminate; destruct r; try discriminate.
+    + destruct e as [| |t r|t|t b|t r|i h|i| |]; try discriminate; destruct r; try discriminate.
       inversion H; subst. simpl. now rewrite orb_false_r.
-    + destruct e as [|t r|t b|t r|i h|i| |]; inversion H; subst; simpl; rewrite ?orb_false_r, ?orb_true_r; reflexivity.
+    + destruct e as [| |t r|t|t b|t r|i h|i| |]; inversion H; subst; simpl; rewrite ?orb_false_r, ?orb_true_r; reflexivity.
 Qed.
 
 Theorem scan_sound evs c :
   scan evs = (true, c, None) ->
   forall pre t b post, evs = pre ++ EWStart t b :: post ->
-    b = has_disc pre /\ (b = true -> exists post', post = EWRes t WClosed :: post').
+    b = has_closed pre /\ (b = true -> exists post', post = EWRes t WClosed :: post').
 Proof.
   intros H pre t b post ->. rewrite scan_app in H. simpl in H.
   destruct (scan pre) as [[ok0 c0] p0] eqn:Hs.
@@ -325,7 +332,7 @@ Proof.
   cbn [fold_left] in H.
   assert (He : ok_of (scan_step (true, true, Some t) e) = true).
   { apply (fold_ok_start post'). rewrite H. reflexivity. }
-  destruct e as [|t1 r|t1 b1|t1 r|i h|i| |]; try discriminate He.
+  destruct e as [| |t1 r|t1|t1 b1|t1 r|i h|i| |]; try discriminate He.
   destruct r; try discriminate He. unfold scan_step, ok_of in He. simpl in He.
   apply Nat.eqb_eq in He. subst t1. eauto.
 Qed.
@@ -358,7 +365,7 @@ Theorem writes_after_close_fail script gs sched :
   let r := run (program impl_cfg script gs) sched cinit in
   let evs := events r in
   forall pre t b post, evs = pre ++ EWStart t b :: post ->
-    b = has_disc pre /\ (b = true -> exists post', post = EWRes t WClosed :: post').
+    b = has_closed pre /\ (b = true -> exists post', post = EWRes t WClosed :: post').
 Proof.
   cbv zeta. pose proof (invariant script gs sched) as H. cbv zeta in H.
   unfold Inv, InvF in H. destruct H as (_ & _ & _ & _ & _ & H6 & _).
@@ -381,12 +388,12 @@ Qed.
 
 Theorem without_once_teardown_runs_twice :
   exists script gs sched,
-    n_disc (events (run (program (mkCfg false true) script gs) sched cinit)) = 2.
+    n_disc (events (run (program (mkCfg false true false) script gs) sched cinit)) = 2.
 Proof. exists [], [GClose; GClose], [1; 2]. vm_compute. reflexivity. Qed.
 
 Theorem without_recover_the_process_dies :
   exists script gs sched,
-    let r := run (program (mkCfg true false) script gs) sched cinit in
+    let r := run (program (mkCfg true false false) script gs) sched cinit in
     died (events r) = true /\ c_died (final_state r) = true
     /\ handled (events r) = [0; 1]          (* the third packet is never handled *)
     /\ n_disc (events r) = 0.               (* and the session is never torn down *)
@@ -411,9 +418,25 @@ Example demo_run :
   /\ handled (events r) = [0; 1; 2; 3; 4; 5] /\ recovered (events r) = [0; 2; 3; 4]
   /\ n_disc (events r) = 1 /\ n_first (events r) = 1
   /\ skipn 10 (events r) =
-     [EDisc; ECloseRet 1 CFirst; ECloseRet 2 CAlready; ECloseRet 3 CAlready;
+     [EDisc; ECloseRet 1 CFirst; ECwSkip 2; ECloseRet 3 CAlready;
       EWStart 5 true; EWRes 5 WClosed; ELoopExit; ECloseRet 0 CAlready].
 Proof. vm_compute. repeat split; reflexivity. Qed.
+
+(* the parent context is cancelled before anything closed the connection: a write and a CloseWith answer
+   "closed" without tearing anything down, the next Close still runs the teardown, once *)
+Example cancel_before_close :
+  events (run (program impl_cfg [] [GCancel; GWrite; GCloseWith; GClose; GClose]) [1; 2; 3;3;3; 4; 5; 0] cinit)
+  = [ECancel; EWStart 2 true; EWRes 2 WClosed; ECwSkip 3; EDisc; ECloseRet 4 CFirst; ECloseRet 5 CAlready;
+     ELoopExit; ECloseRet 0 CAlready].
+Proof. vm_compute. reflexivity. Qed.
+
+(* a closeKnown that first answers ErrClosedConn when Closed(c) (a tempting fast path, not in the code):
+   after a parent cancel no close path ever runs the teardown *)
+Theorem with_early_exit_teardown_never_runs :
+  exists script gs sched,
+    let r := run (program (mkCfg true true true) script gs) sched cinit in
+    complete (remaining r) = true /\ n_disc (events r) = 0 /\ c_closed (final_state r) = false.
+Proof. exists [], [GCancel; GClose; GClose], [1; 2; 3; 0]. vm_compute. repeat split; reflexivity. Qed.
 
 Definition small_ok (s : cst) (evs : list event) : bool :=
   Nat.eqb (n_disc evs) 1 && negb (died evs) && negb (c_died s)
